@@ -626,19 +626,19 @@ pub fn server_case_from_bytes(data: &[u8]) -> Option<ServerCase> {
     })
 }
 
-server_prop!(C15, "C15", Which::C15, 200_000, 3_000_000, 4,
+server_prop!(C15, "C15", Which::C15, 200_000, 7_200_000, 4,
     "server configuration (deny/allow lists over a pool of nested/overlapping v4/v6/mapped subnets mixed with generated subnets: few bases with host bits set, any prefix length, any order; both actions, require-nts, accepted-version mask) × client address (boundary addresses of the pool, mapped forms, random, and for half of the requests an address on the prefix boundary of a configured subnet: one bit around the boundary flipped, host bits all-0/all-1/random) × request (reference-built plain/NTS v3/v4/v5 polls, non-client modes, malformed, mutated, raw bytes); oracle = decision table of the statement with reference subnet arithmetic and reference decoding of the answer; non-trivial = the address is on exactly one of the lists or a deny list is configured");
 server_prop!(C16, "C16", Which::C16, 60_000, 3_000_000, 3,
     "all request kinds of the server world: (a) Server::handle with the daemon's request-sized buffer; (b) one case in eight additionally end to end: the same datagrams are sent over loopback UDP to the daemon's real ServerTask (timestamped socket; the loopback client is served in half of the cases and otherwise on the deny list, outside the allow list or refused for lack of NTS, all with action deny; NTPv3-5 accepted), plus, for every datagram whose unrestricted answer (library twin with a 4 KiB buffer) would outgrow it, variants lengthened to end 1..4 bytes short of that answer; every reply is matched to its datagram by the echoed identifier; oracle = reply length ≤ request length; non-trivial = an answered request longer than the bare 48-byte header");
-server_prop!(C17, "C17", Which::C17, 200_000, 3_000_000, 3,
+server_prop!(C17, "C17", Which::C17, 200_000, 12_000_000, 3,
     "differential: same datagram handled with a request-sized buffer and with a 4 KiB buffer on twin servers; oracle = large answers ⇒ small answers with the same kind, no InternalError statistics entry; non-trivial = answered request with ≥1 extension field");
-server_prop!(C18, "C18", Which::C18, 200_000, 3_000_000, 3,
+server_prop!(C18, "C18", Which::C18, 200_000, 13_000_000, 3,
     "requests with extension-field soup (UIDs, unknown types, cookies, placeholders, ref-id requests, padding) in untrusted/authenticated/encrypted position and random server state; oracle = reference decoding of the answer: mode/version/identifier/poll echo, receive+transmit timestamps, stratum/leap/refid/root delay from the state, kiss answers without time, answer fields ⊆ {request UIDs, bloom-filter bytes, draft id, padding, encrypted cookies}, 8-byte canaries from non-echoable request fields absent; non-trivial = answered request that carried ≥1 canary");
-server_prop!(C19, "C19", Which::C19, 200_000, 3_000_000, 3,
+server_prop!(C19, "C19", Which::C19, 200_000, 10_000_000, 3,
     "NTS requests: cookie under current/old/expired/foreign/tampered key, 0..10 placeholders of assorted lengths, cookies in the encrypted part, wrong-direction or unrelated AEAD key, corrupted authenticator, both AEADs, v4/v5, key rotations between requests; oracle = auth failure ⇒ no time; time answer authenticates under s2c (reference AES-SIV), fresh cookies only encrypted, ≤ #cookie+placeholder fields, ≤ 8, none larger than the field it replaces, each decoding under the current keys to the request's session keys; non-trivial = authenticated request with ≥2 cookie/placeholder fields");
-server_prop!(C21, "C21", Which::C21, 200_000, 3_000_000, 4,
+server_prop!(C21, "C21", Which::C21, 200_000, 6_400_000, 4,
     "all request kinds and configurations; oracle = exactly one statistics entry per datagram whose kind equals the observed action (reference-decoded answer), NTS flag false for parseable requests without authenticator and true for answered NTS requests, then the daemon's ServerStats counters fed with the entries equal the tally of observed actions; non-trivial = every handled datagram");
-server_prop!(C22, "C22", Which::C22, 400_000, 5_000_000, 4,
+server_prop!(C22, "C22", Which::C22, 400_000, 9_700_000, 4,
     "raw byte strings 0..1024, reference-built NTS layouts with valid cookies and arbitrary trailing data, authenticated requests with 0..=24 undersized unique-identifier fields (answer authenticator squeezed against the end of the buffer), plain requests with undersized fields and legacy MACs of every accepted length, bit-flipped/truncated/extended valid requests, random configurations, synchronisation states (variance terms 0/huge/slightly negative) and key histories; oracle = Server::handle returns (no panic); non-trivial = every handled datagram");
 
 // ---------------------------------------------------------------------------
